@@ -71,11 +71,14 @@ class World:
         self.home = os.path.join(workdir, "h")
         self.pristine = {}
         self.sizes = {}
+        self.plugin_dir = None  # None: default (~/.octosql/plugins); else OCTOSQL_PLUGIN_DIR relative to HOME
 
     def env(self, extra=None):
         e = {"HOME": self.home, "OCTOSQL_NO_TELEMETRY": "1", "PATH": os.environ.get("PATH", ""),
              "OCTOSQL_PLUGIN_REPOSITORY_OFFICIAL_URL": "http://verif.local/repo.json", "VERIF_HTTP_ROOT": HTTPROOT,
              "OCTOSQL_PLUGIN_TMP_DIR": SHORT_TMP, "GOMAXPROCS": "2"}
+        if self.plugin_dir is not None:
+            e["OCTOSQL_PLUGIN_DIR"] = os.path.join(self.home, "") + self.plugin_dir
         e.update(extra or {})
         return e
 
@@ -89,6 +92,7 @@ class World:
     def reset(self, initial):
         """HOME := pristine copy of the initial state (built once per worker by clean installs)."""
         label, versions = initial
+        label = label + "@" + str(self.plugin_dir).replace("/", "_")
         src = os.path.join(self.workdir, "pristine_" + label)
         if label not in self.pristine:
             shutil.rmtree(self.home, ignore_errors=True)
@@ -133,18 +137,18 @@ class World:
 
     def listing(self):
         out = []
-        base = os.path.join(self.home, ".octosql")
+        base = self.home
         for root, dirs, files in os.walk(base):
             dirs.sort()
             for f in sorted(files):
                 p = os.path.join(root, f)
                 rel = os.path.relpath(p, base)
-                if rel.startswith("tmp") or rel == "logs.txt":
+                if "/tmp/" in "/" + rel or rel.endswith("logs.txt") or rel.endswith("octosql.yml"):
                     continue
                 out.append("%s:%d" % (norm_tmp(rel), os.path.getsize(p)))
             for d in dirs:
                 rel = os.path.relpath(os.path.join(root, d), base)
-                if not rel.startswith("tmp"):
+                if "/tmp" not in "/" + rel:
                     out.append(norm_tmp(rel) + "/")
         return sorted(out)
 
@@ -154,7 +158,7 @@ DRY = {}  # (initial, config, op) -> crash points passed by a clean run
 
 
 def dry_run(world, initial, config, op):
-    key = (initial[0], config[0], op[0])
+    key = (initial[0], config[0], op[0], world.plugin_dir)
     if key not in DRY:
         world.reset(initial)
         world.write_config(config[1])
@@ -205,12 +209,14 @@ def run_once(r):
     config = CONFIGS[hdr.draw(len(CONFIGS))]
     op = OPS[hdr.draw(len(OPS))]
     second = hdr.chance(1, 4)
+    # where plugins live: the default directory, or OCTOSQL_PLUGIN_DIR (also written with a trailing slash)
+    w.plugin_dir = [None, None, "pd", "pd/"][hdr.draw(4)]
     attrs = {"op": op[0]}
     installed0 = list(initial[1])
 
     rc_dry, points, err_dry = dry_run(w, initial, config, op)
-    r.log("initial=%s config=%s op=%s (clean run: exit %s, %d crash points)" % (initial[0], config[0], " ".join(op[1]), rc_dry, len(points)))
-    r.shape(initial[0], config[0], op[0])
+    r.log("initial=%s config=%s op=%s plugin_dir=%s (clean run: exit %s, %d crash points)" % (initial[0], config[0], " ".join(op[1]), w.plugin_dir, rc_dry, len(points)))
+    r.shape(initial[0], config[0], op[0], w.plugin_dir)
     if rc_dry != 0:
         # e.g. `plugin install` from a config whose constraint no manifest version satisfies: not a scenario
         r.log("clean run fails (%s): not a scenario" % err_dry.strip()[-120:])
@@ -330,7 +336,8 @@ def run_once(r):
 
 
 ENUM_POINTS, ENUM_MODES = 18, 5
-ENUM_TOTAL = len(INITIALS) * len(CONFIGS) * len(OPS) * ENUM_POINTS * ENUM_MODES
+ENUM_PDIRS = 2  # default directory / OCTOSQL_PLUGIN_DIR with a trailing slash
+ENUM_TOTAL = len(INITIALS) * len(CONFIGS) * len(OPS) * ENUM_POINTS * ENUM_MODES * ENUM_PDIRS
 
 
 def enumerate_tape(run, tier):
@@ -344,8 +351,9 @@ def enumerate_tape(run, tier):
     cfg, e = e % len(CONFIGS), e // len(CONFIGS)
     op, e = e % len(OPS), e // len(OPS)
     pt, e = e % ENUM_POINTS, e // ENUM_POINTS
-    mode = e % ENUM_MODES
-    hdr = [ini, cfg, op, 0, 0, 0, 0, 0]
+    mode, e = e % ENUM_MODES, e // ENUM_MODES
+    pdir = [0, 3][e % ENUM_PDIRS]
+    hdr = [ini, cfg, op, 0, pdir, 0, 0, 0]
     if mode == 0:
         crash = [1, pt, 0, 0, 0, 0, 0]           # kill
     else:
